@@ -88,7 +88,7 @@ def check_key_section(rep, ctx):
                 eqs = [e for e in cmps if si < ev.index(e) < ai] if lk is not None else []
                 g_ok = [e for e in eqs if any(derives(x, lk.child(("f", gi))) for x in e.rargs) and any(derives(x, K.child(("f", gi))) for x in e.rargs)]
                 k_ok = [e for e in eqs if any(derives(x, lk.child(("f", ki))) for x in e.rargs) and any(derives(x, K.child(("f", ki))) for x in e.rargs)]
-                ok_cmp = bool(g_ok) and bool(k_ok) and implied(r, z3.And(g_ok[-1].ret.e, k_ok[-1].ret.e))
+                ok_cmp = bool(g_ok) and bool(k_ok) and implied(r, z3.And(g_ok[-1].extra, k_ok[-1].extra))
                 ob(i, "between store and attest the key file is read back and its guid AND key value equal the acquired key", ok_rb and ok_cmp, "C08.readback-before-attest",
                    "read-backs %d guid-compare %d key-compare %d" % (len(rb), len(g_ok), len(k_ok)), r)
         for u in upd:
@@ -205,7 +205,7 @@ def check_store_fetch_names(rep, ctx):
             gi, ki = ctx.field("Key", "guid"), ctx.field("Key", "key")
             g = [e for e in cm if any(derives(x, key.child(("f", gi))) for x in e.rargs)]
             k = [e for e in cm if any(derives(x, key.child(("f", ki))) for x in e.rargs)]
-            ok = bool(g) and bool(k) and implied(r, z3.And(g[-1].ret.e, k[-1].ret.e))
+            ok = bool(g) and bool(k) and implied(r, z3.And(g[-1].extra, k[-1].extra))
             rep.add(Query("check_local_key path %d: Ok only if the stored guid AND the stored key value equal the given key" % i, "holds" if ok else "violated",
                           "guid compares %d key compares %d" % (len(g), len(k)), 0, "mirsym+z3", key="C08.check-both-fields", reproduced=None))
     rep.add(Query("witness: check_local_key has an Ok path", "witness-hit" if n else "witness-missed", "", 0, "mirsym"))
@@ -221,6 +221,8 @@ def check(rep, tier, seed):
     rep.assumptions += ["rename(2) is atomic (POSIX)", "Future::poll returns Ready", "a crash is a prefix of a path's event trace: the obligations are orderings, so they hold for every prefix"]
     rep.outside_claim += ["durability against power loss (no fsync in the code)", "the Windows encrypted store", "host-side behaviour"]
     rep.trusted += ["mirsym", "z3"]
+    import batteries
+    batteries.confirm(rep, "C08")
 
 
 def replay(path):
